@@ -150,27 +150,29 @@ pub(crate) fn create_value_object(values: Vec<(Name, Value)>) -> Value {
 
 fn insert_value(target: &mut IndexMap<Name, Value>, name: Name, value: Value) {
     if let Some(prev_value) = target.get_mut(&name) {
-        if let Value::Object(target_map) = prev_value {
-            if let Value::Object(obj) = value {
-                for (key, value) in obj.into_iter() {
-                    insert_value(target_map, key, value);
-                }
+        merge_value(prev_value, value);
+    } else {
+        target.insert(name, value);
+    }
+}
+
+/// Merge the value of a repeated response key into the value already present:
+/// objects key by key, lists (of objects or of further lists) item by item.
+fn merge_value(prev_value: &mut Value, value: Value) {
+    match (prev_value, value) {
+        (Value::Object(target_map), Value::Object(obj)) => {
+            for (key, value) in obj.into_iter() {
+                insert_value(target_map, key, value);
             }
-        } else if let Value::List(target_list) = prev_value
-            && let Value::List(list) = value
-        {
+        }
+        (Value::List(target_list), Value::List(list)) => {
             for (idx, value) in list.into_iter().enumerate() {
-                if let Some(Value::Object(target_map)) = target_list.get_mut(idx)
-                    && let Value::Object(obj) = value
-                {
-                    for (key, value) in obj.into_iter() {
-                        insert_value(target_map, key, value);
-                    }
+                if let Some(prev_item) = target_list.get_mut(idx) {
+                    merge_value(prev_item, value);
                 }
             }
         }
-    } else {
-        target.insert(name, value);
+        _ => {}
     }
 }
 
